@@ -241,30 +241,23 @@ def r3_linkback(ctx):
                 writers.append((m, n))
     if not writers:
         ctx.ob(f"{oc.key}:no-children-writer", oc.loc(), "a derivation created with linkback records the child in its parents' `children`", False, "nothing ever appends to `children`: linkback derivations are never registered with their ancestors, so later changes to the ancestor do not show up in the child")
+    from .common import enclosing_loops, path_atoms
+
     for m, call in writers:
         ctx.touch(m)
         rv = recv_name(m)
         parent_var = dotted(call.func.value.value)
-        # find enclosing For over the list that is added to self.mixins
-        loop = None
-        for n in ast.walk(m.node):
-            if isinstance(n, ast.For) and call in list(ast.walk(n)) and isinstance(n.target, ast.Name) and n.target.id == parent_var:
-                loop = n
+        loops = [lp for lp in enclosing_loops(m.node, call) if isinstance(lp, ast.For) and isinstance(lp.target, ast.Name) and lp.target.id == parent_var]
         added = None
         for n in ast.walk(m.node):
             if isinstance(n, ast.AugAssign) and is_self_attr(n.target, "mixins", selfname=rv):
                 added = dotted(n.value)
             if isinstance(n, ast.Call) and isinstance(n.func, ast.Attribute) and n.func.attr in ("extend",) and is_self_attr(n.func.value, "mixins", selfname=rv) and n.args:
                 added = dotted(n.args[0])
-        ok = loop is not None and added is not None and dotted(loop.iter) == added
-        # condition: only the linkback flag
-        cond_ok = False
-        if loop is not None:
-            for st in loop.body:
-                if isinstance(st, ast.If) and call in list(ast.walk(st)):
-                    cond_ok = is_self_attr(st.test, "linkback", selfname=rv) and not st.orelse
-                elif isinstance(st, ast.Expr) and st.value is call:
-                    cond_ok = False  # unconditional registration would make every derivation linked
+        ok = bool(loops) and added is not None and dotted(iter_base(loops[0].iter)) == added
+        # the only condition on the way to the registration is the linkback flag
+        conds = path_atoms(m.node, call)
+        cond_ok = len(conds) == 1 and conds[0][0] == "truthy" and is_self_attr(conds[0][1], "linkback", selfname=rv)
         ctx.ob(
             f"{m.key}:children-writer",
             m.loc(call),
